@@ -206,6 +206,19 @@ def check(run):
             if a0 in ('header', '(value + 1)'):
                 g = [(q.render(pr, a), p) for a, p in q.guards_at(pr, n)]
                 run.check(('(value > next)', False) in g, 'R5', 'range-ordered', '%s: string(%s, %s)' % (PR, a0, a1), pr.loc(n), 'a string is built from two pointers whose order was not tested (value <= next)', 'dominated by !(value > next)')
+    run.clause('last duplicate header wins: the header map is written by overwrite (operator[] assignment), not by first-wins insertion')
+    hw = []
+    for n in pr.all_nodes():
+        if n['k'] == 'call' and is_node(n.get('obj')) and q.render(pr, n['obj']) == 'ret.headers' and (n.get('callee') or '').split('::')[-1] in ('insert', 'emplace', 'emplace_hint', 'try_emplace', 'insert_or_assign'):
+            hw.append(((n.get('callee') or '').split('::')[-1], n))
+        if n['k'] == 'call' and n.get('opc') == '=' and n.get('args') and 'ret.headers[' in q.render(pr, n['args'][0]):
+            hw.append(('operator[]=', n))
+    if not hw:
+        run.broke('parse_request: no write to ret.headers found')
+    for kind_, n in hw:
+        run.check(kind_ in ('operator[]=', 'insert_or_assign'), 'R2k', 'header-overwrite', PR + ': ret.headers ' + kind_, pr.loc(n),
+                  'headers are stored with %s, which keeps the FIRST value of a repeated header; the property requires the last duplicate to win' % kind_, 'overwriting store')
+
     run.clause('path derivation order: the target is cut at the first ? BEFORE it is normalised (query content never takes part in ../ removal), except for CONNECT')
     norm = [c for c in pr.calls() if q.callee_name(c) == 'sim::normalize']
     if not norm:
